@@ -328,7 +328,7 @@ func main() {
 		json.Unmarshal(b, &fb)
 		if fb.Replay.Big != nil {
 			if k, d := checkBig(*fb.Replay.Big); k != "" {
-				fmt.Printf("VIOLATION property=C07 replay=%s\n  %s: %s\n", os.Args[2], k, d)
+				fmt.Printf("VIOLATION property=%s replay=%s\n  %s: %s\n", ev.As("C07"), os.Args[2], k, d)
 				os.Exit(1)
 			}
 			fmt.Println("replay: property held")
@@ -336,7 +336,7 @@ func main() {
 		}
 		vrt.InactiveMapPolicy = f.Replay.Cfg.Policy
 		if k, d := check(f.Replay); k != "" {
-			fmt.Printf("VIOLATION property=C07 replay=%s\n  %s: %s\n", os.Args[2], k, d)
+			fmt.Printf("VIOLATION property=%s replay=%s\n  %s: %s\n", ev.As("C07"), os.Args[2], k, d)
 			os.Exit(1)
 		}
 		fmt.Println("replay: property held")
